@@ -11,11 +11,11 @@ import (
 // parameters, so a wrong binding, a lost/duplicated element or a wrong error is visible.
 
 const (
-	cbDirect   = iota // top-level call
-	cbTail            // self tail call `return f(n-1, args)`
-	cbDiscard         // self call as last statement, value discarded
-	cbNonTail         // self call in non-tail position
-	cbClosure         // call through a closure that captured f
+	cbDirect  = iota // top-level call
+	cbTail           // self tail call `return f(n-1, args)`
+	cbDiscard        // self call as last statement, value discarded
+	cbNonTail        // self call in non-tail position
+	cbClosure        // call through a closure that captured f
 	cbNumShapes
 )
 
@@ -138,5 +138,56 @@ func ClosureChainProgram(r *Rand) string {
 		}
 		fmt.Fprintf(&sb, "r := c%d(%d)\nreturn [r, log]\n", n-1, start+2)
 	}
+	return sb.String()
+}
+
+// Destructuring programs (C02 "array destructuring"): targets 1..4 x right-hand sides that own their
+// storage or are slices of a longer LIVE array (`full[:m]`, `full[m:]`, a function returning a slice) x
+// define / assign; the program returns the targets AND the other array, so that padding or truncation
+// done in place on shared storage is visible.
+const NumDestructPrograms = 4 * 5 * 5 * 2
+
+func DestructProgram(i int) string {
+	k := 1 + i%4
+	i /= 4
+	rhs := i % 5
+	i /= 5
+	m := i % 5
+	i /= 5
+	define := i%2 == 0
+	var ts []string
+	for j := 0; j < k; j++ {
+		ts = append(ts, fmt.Sprintf("t%d", j))
+	}
+	var sb strings.Builder
+	sb.WriteString("full := [1, 2, 3, 4]\nother := full[1:]\n")
+	var r string
+	switch rhs {
+	case 0:
+		var es []string
+		for j := 0; j < m; j++ {
+			es = append(es, fmt.Sprint(10+j))
+		}
+		r = "[" + strings.Join(es, ", ") + "]"
+	case 1:
+		r = fmt.Sprintf("full[:%d]", m)
+	case 2:
+		r = fmt.Sprintf("full[%d:]", m)
+	case 3:
+		fmt.Fprintf(&sb, "cut := func(n) { return full[:n] }\n")
+		r = fmt.Sprintf("cut(%d)", m)
+	default:
+		// (no `append(full[:m], x)` form: whether append writes into the spare capacity of `full` is Go
+		// slice-capacity behaviour, which the models do not track)
+		r = fmt.Sprintf("full[%d:%d]", m/2, m)
+	}
+	if define {
+		fmt.Fprintf(&sb, "%s := %s\n", strings.Join(ts, ", "), r)
+	} else {
+		fmt.Fprintf(&sb, "var (%s)\n%s = %s\n", strings.Join(ts, ", "), strings.Join(ts, ", "), r)
+	}
+	fmt.Fprintf(&sb, "first := [%s, full, other]\n", strings.Join(ts, ", "))
+	// a second destructuring from the same storage sees what the first one left
+	fmt.Fprintf(&sb, "u0, u1, u2 := full[1:]\nreturn [first, u0, u1, u2, full, other]\n")
 	return sb.String()
 }
